@@ -8,6 +8,7 @@
 import PypyrModel.Cli
 import Generated.CliMain
 import Generated.CliOptions
+import Generated.Ladders
 import Props.Lemmas.C18_Parsers
 import Props.Lemmas.C18_Argv
 import Props.Lemmas.C18_Classify
@@ -1065,5 +1066,180 @@ theorem parser_returns_agree :
       [("keyvaluepairs", ["none", "new"]), ("argskwargs", ["new", "new"]), ("dict", ["new", "new"]),
        ("list", ["new", "new"]), ("string", ["new", "new"]), ("keys", ["none", "new"]), ("json", ["none", "new"])] := by
   decide +kernel
+
+/-! ## The run phase × the failure handler: an interrupt is 130 whatever the handler contains -/
+
+/-- **Static tie.** The `except` clauses of `StepsRunner.run_step_groups` / `run_failure_step_group` as
+    extracted from the source under test are the ones the model `runStepGroups` runs on (`codeLadders`):
+    the handler clause names `Exception` - not `BaseException`, no bare `except` - and the class hierarchy of
+    pypyr/errors.py puts the Stop family under `Exception`. -/
+theorem run_ladders_agree :
+    Generated.ladders.lookup "StepsRunner.run_step_groups#0" =
+      some ([(codeLadders.reraise, .reraise), (codeLadders.toHandler, .conditional)], false) ∧
+    Generated.ladders.lookup "StepsRunner.run_step_groups#1" = some ([(codeLadders.dropOriginal, .swallow)], false) ∧
+    Generated.ladders.lookup "StepsRunner.run_failure_step_group#0" =
+      some ([(codeLadders.handlerReraise, .reraise), (codeLadders.handlerSwallow, .swallow)], false) ∧
+    Generated.ladders.lookup "StepsRunner.run_step_group#0" = some ([(["Jump"], .swallow), (["StopStepGroup"], .conditional)], false) ∧
+    Generated.hierarchy.lookup "Stop" = some ["Error"] ∧ Generated.hierarchy.lookup "Error" = some ["Exception"] ∧
+    Generated.hierarchy.lookup "StopPipeline" = some ["Stop"] ∧ Generated.hierarchy.lookup "StopStepGroup" = some ["Stop"] := by
+  refine ⟨?_, ?_, ?_, ?_, ?_, ?_, ?_, ?_⟩ <;> rfl
+
+/-- the `try` body of `run_step_groups` never lets a `StopStepGroup` out (`run_step_group` ends the group) -/
+theorem tryBody_ne_stopStepGroup (mains : List Raised) (success : Option Raised) :
+    tryBody mains success ≠ .stopStepGroup := by
+  have hg : ∀ e, runStepGroup false e ≠ .stopStepGroup := by
+    intro e; cases e <;> simp [runStepGroup]
+  have hm : ∀ ms, runMainGroups ms ≠ .stopStepGroup := by
+    intro ms
+    induction ms with
+    | nil => simp [runMainGroups]
+    | cons e rest ih =>
+      unfold runMainGroups
+      have := hg e
+      split <;> simp_all
+  unfold tryBody
+  split
+  · split
+    · exact hg _
+    · simp
+  · rename_i r hr; intro h; exact hm mains h
+
+/-- **`run_step_groups`, all cases** (`b` = what leaves the main groups / the success group, `failure` = what
+    leaves the steps of the failure group, `none` when there is none): only an `Exception` outside the Stop
+    family reaches the failure handler; a handler that completes or fails too leaves the original error; a
+    `StopStepGroup` from the handler drops it; anything else leaving the handler (Stop, StopPipeline,
+    KeyboardInterrupt, SystemExit, another BaseException) replaces it. Everything that is no such `Exception` -
+    nothing, Stop family, `KeyboardInterrupt`, `SystemExit`, other `BaseException`s - leaves `run_step_groups`
+    as it is, whatever the failure group contains. -/
+theorem run_step_groups_spec (mains : List Raised) (success failure : Option Raised) :
+    runStepGroups mains success failure =
+      match tryBody mains success with
+      | .error ty msg =>
+        (match failure with
+         | none => .error ty msg
+         | some .nothing => .error ty msg
+         | some (.error _ _) => .error ty msg
+         | some .stopStepGroup => .nothing
+         | some h => h)
+      | b => b := by
+  unfold runStepGroups runStepGroupsL
+  generalize tryBody mains success = b
+  cases b <;> try (simp [clauseCatches, Raised.classes, codeLadders])
+  rename_i ty msg
+  cases failure with
+  | none => rfl
+  | some h => cases h <;> simp [runFailureStepGroup, runStepGroup, clauseCatches, Raised.classes]
+
+/-- **Only `Exception`s reach the failure handler.** -/
+theorem handler_runs_iff_exception (mains : List Raised) (success failure : Option Raised) :
+    handlerRuns codeLadders mains success failure = true ↔
+      (∃ ty msg, tryBody mains success = .error ty msg) ∧ failure.isSome = true := by
+  unfold handlerRuns
+  generalize tryBody mains success = b
+  cases b <;> simp [clauseCatches, Raised.classes, codeLadders]
+
+/-- **An interrupt gives 130 whatever the failure handler contains**: a `KeyboardInterrupt` leaving a step of
+    a main group or of the success group - every group list, every handler ending (absent, completes, fails
+    too, stop, stoppipeline, stopstepgroup, raises anything). The handler does not even start. -/
+theorem interrupt_gives_130 (mains : List Raised) (success failure : Option Raised)
+    (h : tryBody mains success = .keyboardInterrupt) :
+    runPhaseStatus mains success failure = some 130 ∧ handlerRuns codeLadders mains success failure = false ∧
+    tryMain (pipelineRun (runStepGroups mains success failure)) = .returned ⟨some 130, "\n", ""⟩ := by
+  have hs := run_step_groups_spec mains success failure
+  rw [h] at hs
+  refine ⟨by simp [runPhaseStatus, hs]; rfl, ?_, by rw [hs]; rfl⟩
+  cases hh : handlerRuns codeLadders mains success failure
+  · rfl
+  · obtain ⟨⟨ty, msg, e⟩, _⟩ := (handler_runs_iff_exception mains success failure).1 hh
+    rw [h] at e; cases e
+
+/-- an interrupt while the failure handler runs (after an error in the steps) is 130 too -/
+theorem interrupt_in_handler_gives_130 (mains : List Raised) (success : Option Raised) (ty msg : String)
+    (h : tryBody mains success = .error ty msg) :
+    runPhaseStatus mains success (some .keyboardInterrupt) = some 130 := by
+  have hs := run_step_groups_spec mains success (some .keyboardInterrupt)
+  rw [h] at hs
+  simp [runPhaseStatus, hs]; rfl
+
+example : tryBody [.nothing, .stopStepGroup, .keyboardInterrupt, .error "ValueError" "never"] (some .nothing) = .keyboardInterrupt ∧
+    runPhaseStatus [.nothing, .stopStepGroup, .keyboardInterrupt] (some .nothing) (some .stop) = some 130 ∧
+    runPhaseStatus [.nothing] (some .keyboardInterrupt) (some .stopStepGroup) = some 130 ∧
+    runPhaseStatus [.error "ValueError" "x"] none (some .keyboardInterrupt) = some 130 ∧
+    runPhaseStatus [.error "ValueError" "x"] none (some .stop) = some 0 := by decide +kernel
+
+/-- **The exit-code theorem over what the run phase raises × what the handler does.** With `b` what leaves the
+    main groups / success group and `failure` what leaves the failure group's steps:
+    * 130 exactly when `b` is an interrupt, or `b` is an error and the handler is interrupted;
+    * 255 exactly when `b` is an error and the handler is absent, completes or fails with an `Exception`;
+    * 0 exactly when `b` is nothing / Stop / StopPipeline, or `b` is an error and the handler ends in
+      stop / stoppipeline / stopstepgroup - or a `SystemExit` whose code means 0 leaves (the open finding);
+    * otherwise a `SystemExit` / other `BaseException` left: the interpreter's status. -/
+theorem run_phase_exit_spec (mains : List Raised) (success failure : Option Raised) :
+    let b := tryBody mains success
+    let isErr := ∃ ty msg, b = .error ty msg
+    let exits := fun c => b = .systemExit c ∨ (isErr ∧ failure = some (.systemExit c))
+    (runPhaseStatus mains success failure = some 130 ↔
+      b = .keyboardInterrupt ∨ (isErr ∧ failure = some .keyboardInterrupt) ∨ ∃ c, exits c ∧ c.status = 130) ∧
+    (runPhaseStatus mains success failure = some 255 ↔
+      (isErr ∧ (failure = none ∨ failure = some .nothing ∨ ∃ t m, failure = some (.error t m))) ∨
+      ∃ c, exits c ∧ c.status = 255) ∧
+    (runPhaseStatus mains success failure = some 0 ↔
+      b = .nothing ∨ b = .stop ∨ b = .stopPipeline ∨
+      (isErr ∧ (failure = some .stop ∨ failure = some .stopPipeline ∨ failure = some .stopStepGroup)) ∨
+      ∃ c, exits c ∧ c.status = 0) := by
+  intro b isErr exits
+  have hs := run_step_groups_spec mains success failure
+  have hne := tryBody_ne_stopStepGroup mains success
+  simp only [runPhaseStatus, isErr, exits, b]
+  generalize tryBody mains success = b at hs hne
+  rw [hs]
+  cases b with
+  | error ty msg =>
+    cases failure with
+    | none => simp [exitStatus, pipelineRun, tryMain, cliMain, sysExit, Outcome.status]
+    | some h => cases h <;> simp [exitStatus, pipelineRun, tryMain, cliMain, sysExit, Outcome.status]
+  | _ => simp_all [exitStatus, pipelineRun, tryMain, cliMain, sysExit, Outcome.status]
+
+/-- with no `SystemExit` in play: 0 iff completed or ended by a Stop instruction (in the steps, or in the
+    failure handler of an error) -/
+theorem run_phase_exit_zero_iff (mains : List Raised) (success failure : Option Raised)
+    (hb : ∀ c, tryBody mains success ≠ .systemExit c) (hf : ∀ c, failure ≠ some (.systemExit c)) :
+    runPhaseStatus mains success failure = some 0 ↔
+      tryBody mains success = .nothing ∨ tryBody mains success = .stop ∨ tryBody mains success = .stopPipeline ∨
+      ((∃ ty msg, tryBody mains success = .error ty msg) ∧
+        (failure = some .stop ∨ failure = some .stopPipeline ∨ failure = some .stopStepGroup)) := by
+  rw [(run_phase_exit_spec mains success failure).2.2]
+  constructor
+  · rintro (h | h | h | h | ⟨c, (h | ⟨_, h⟩), _⟩)
+    · exact .inl h
+    · exact .inr (.inl h)
+    · exact .inr (.inr (.inl h))
+    · exact .inr (.inr (.inr h))
+    · exact absurd h (hb c)
+    · exact absurd h (hf c)
+  · rintro (h | h | h | h)
+    · exact .inl h
+    · exact .inr (.inl h)
+    · exact .inr (.inr (.inl h))
+    · exact .inr (.inr (.inr (.inl h)))
+
+/-- **Why the static tie matters**: for ANY ladders whose handler clause does not match a `KeyboardInterrupt`
+    (and whose re-raise clause is anything) the interrupt leaves `run_step_groups` untouched ... -/
+theorem interrupt_untouched_of_ladders (L : RunLadders) (mains : List Raised) (success failure : Option Raised)
+    (hL : clauseCatches L.toHandler .keyboardInterrupt = false) (h : tryBody mains success = .keyboardInterrupt) :
+    runStepGroupsL L mains success failure = .keyboardInterrupt := by
+  unfold runStepGroupsL
+  simp only [h, hL]
+  simp
+
+/-- ... and with the clause widened to `except BaseException` a handler ending in stop / stoppipeline /
+    stopstepgroup turns an interrupted run into exit status 0. -/
+theorem wide_handler_clause_witness :
+    exitStatus (runStepGroupsL wideLadders [.keyboardInterrupt] none (some .stop)) = some 0 ∧
+    exitStatus (runStepGroupsL wideLadders [.keyboardInterrupt] none (some .stopStepGroup)) = some 0 ∧
+    exitStatus (runStepGroupsL wideLadders [.nothing] (some .keyboardInterrupt) (some .stopPipeline)) = some 0 ∧
+    exitStatus (runStepGroupsL wideLadders [.keyboardInterrupt] none (some .nothing)) = some 130 := by
+  decide +kernel
+
 
 end Pypyr.C18
